@@ -376,6 +376,12 @@ func (w *Writer) OffsetForFrame(idx uint64) (uint32, error) {
 }
 
 func (w *Writer) appendEntry(e types.LogEntry) error {
+	// Readers refuse frames larger than MaxEntrySize (to bound allocations when
+	// a length is corrupt) so we must never acknowledge one.
+	if len(e.Data) > MaxEntrySize {
+		return ErrTooBig
+	}
+
 	offsets := w.getOffsets()
 
 	// Check the invariant that this entry is the next one we expect otherwise our
